@@ -78,7 +78,13 @@ def search(rep: C.Report, tier: str, broken):
                 rep.violation(f"general and template solver disagree on {what}: {a} vs {b}",
                               dict(info0, quantity=what, general=None if a is None else float(a), template=None if b is None else float(b), **(extra or {})),
                               finding_key=f"C15:{what.split('@')[0]}")
+        # the LTE query first, as WallGoManager does: whatever it leaves behind on the objects must not change the later answers
+        try:
+            cmp("vwLTE", h.findvwLTE(), t.findvwLTE(), 5e-4)
+        except Exception as ex:  # noqa: BLE001
+            rep.count("findvwLTE raised " + type(ex).__name__)
         cmp("vJ", h.vJ, t.vJ, 2e-5)
+        cmp("vJ(fresh template)", t.vJ, type(t)(e).vJ, 1e-12)
         if not (h.vMin <= 1e-3 + 1e-12 and t.vMin == 0):
             cmp("vMin", h.vMin, max(t.vMin, 1e-3), 2e-4)
         for vw in HC.velocities(h, r, nv):
@@ -98,10 +104,6 @@ def search(rep: C.Report, tier: str, broken):
             cg, ct = h.findHydroBoundaries(vw), t.findHydroBoundaries(vw)
             for nm, a, b in zip(("c1", "c2"), cg[:2], ct[:2]):
                 cmp(f"boundary.{nm}@{vw:.3f}", a, b, 1e-3, {"vw": vw})
-        try:
-            cmp("vwLTE", h.findvwLTE(), t.findvwLTE(), 5e-4)
-        except Exception as ex:  # noqa: BLE001
-            rep.count("findvwLTE raised " + type(ex).__name__)
         for vw in ([0.5 * (max(h.vMin, 0.05) + h.vJ)] if tier == "quick" else [0.3 * h.vJ + 0.05, 0.9 * h.vJ, min(h.vJ + 0.1, 0.97)]):
             try:
                 cmp(f"kappa@{vw:.3f}", h.efficiencyFactor(vw), t.efficiencyFactor(vw), 3e-3, {"vw": vw})
